@@ -66,6 +66,10 @@ func init() {
 			bigBases = append(bigBases, vToMap(CrashSpec{Datasets: vDS, IDs: vIDs, Pre: pre, Hist: h, Kind: "store"}))
 		}
 		engine.RunCrash(r, "c04-large-batch", []string{"worker", "crash-store"}, bigBases, 0)
+		// one batch beyond the 16-bit boundary of the in-batch sequence number (65 536): still one atomic unit
+		huge := VOp{K: "batch", DS: "A", Ents: []VEnt{{"e1", pi("v2")}}, N: 65600}
+		engine.RunCrash(r, "c04-huge-batch", []string{"worker", "crash-huge"},
+			[]map[string]interface{}{vToMap(CrashSpec{Datasets: vDS, IDs: vIDs, Pre: pre, Hist: []VOp{huge}, Kind: "store"})}, 0)
 		// "every acknowledged batch / transaction is fully present" also has to hold for writers that overlap in time:
 		// two of the C05 scenarios, judged by the same final-state oracle (all indexes and read APIs agree with some
 		// order of the acknowledged operations)
